@@ -11,11 +11,11 @@ def _fix_ops(segs):
     return segs
 
 
-def _model(tag, n, hn, lens, profiles, mc_only=False, workers=2, heap="4g"):
+def _model(tag, n, hn, lens, profiles, mc_only=False, workers=2, heap="4g", max_steps=None):
     homes = HOMES[hn]
     nk = len(homes)
     return dict(tag=tag, consts=dict(N=n, Keys=set(range(1, nk + 1)), Lens=set(lens), D1=1, D2=1), subst=dict(Home=hn),
-                invariants=["Inv"], properties=["PutRule"], workers=workers, heap=heap, mc_only=mc_only, maxseg=600,
+                invariants=["Inv"], properties=["PutRule"], workers=workers, heap=heap, mc_only=mc_only, maxseg=600, max_steps=max_steps,
                 trace_consts=dict(N=n, NKeys=nk, Lens={1}, D1=32, D2=66), trace_subst=dict(Home="HomeT", Keys="KeysN"),
                 replays=[dict(tag="n%d-p%d" % (n, p), args=(lambda s, t, fl, n=n, nk=nk, homes=homes, p=p:
                                                               [s, t, n, nk, ",".join(map(str, homes)), p, fl])) for p in profiles])
@@ -34,7 +34,7 @@ def models(tier):
             _model("N3-B", 3, "HomeB", [1, 2, 3], [1, 2]),
             _model("N3-F", 3, "HomeF", [1, 2, 3], [5, 0]),
             _model("N2", 2, "Home2", [1, 2], [0, 3]),
-            _model("N4-C", 4, "HomeC", [1, 2], [2], workers=8, heap="8g"),
+            _model("N4-C", 4, "HomeC", [1, 2], [2], workers=8, heap="8g", max_steps=250000),
             _model("N4-C3", 4, "HomeC", [1, 2, 3], [], mc_only=True, workers=8, heap="8g"),
             _model("N4-D", 4, "HomeD", [1, 2, 3], [], mc_only=True, workers=8, heap="8g"),
             _model("N4-E", 4, "HomeE", [1, 2, 3], [], mc_only=True, workers=8, heap="8g")]
